@@ -119,9 +119,6 @@ def _stacktrace_location_provider() -> Location:
   raise RuntimeError("Cannot find a suitable frame in the stack trace!")
 
 
-# The location provider to use when instantiating new HistoryEntry's.
-_location_provider: LocationProvider = _stacktrace_location_provider
-
 
 class _Deleted:
   """A marker object to indicated deletion."""
@@ -184,7 +181,7 @@ def new_value(param_name: str, value: Any) -> HistoryEntry:
       param_name=param_name,
       kind=ChangeKind.NEW_VALUE,
       new_value=value,
-      location=_location_provider())
+      location=_tracking_state.location_provider())
 
 
 def deleted_value(param_name: str) -> HistoryEntry:
@@ -201,7 +198,7 @@ def deleted_value(param_name: str) -> HistoryEntry:
       param_name=param_name,
       kind=ChangeKind.NEW_VALUE,
       new_value=DELETED,
-      location=_location_provider())
+      location=_tracking_state.location_provider())
 
 
 def update_tags(param_name: str,
@@ -220,12 +217,14 @@ def update_tags(param_name: str,
       param_name=param_name,
       kind=ChangeKind.UPDATE_TAGS,
       new_value=frozenset(updated_tags),
-      location=_location_provider())
+      location=_tracking_state.location_provider())
 
 
 @dataclasses.dataclass
 class _TrackingState(threading.local):
   enabled: bool = True
+  # The location provider to use when instantiating new HistoryEntry's.
+  location_provider: LocationProvider = _stacktrace_location_provider
 
 
 _tracking_state = _TrackingState()
@@ -317,10 +316,9 @@ def custom_location(
   Yields:
     The temporary provider.
   """
-  global _location_provider
-  original_location_provider = _location_provider
-  _location_provider = temporary_provider
+  original_location_provider = _tracking_state.location_provider
+  _tracking_state.location_provider = temporary_provider
   try:
     yield temporary_provider
   finally:
-    _location_provider = original_location_provider
+    _tracking_state.location_provider = original_location_provider
